@@ -153,8 +153,19 @@ func CheckStreams(c *Ctx, t *Tun, v *TunVerdict, oracle string, wantComplete boo
 			p.Name, p.Transport, len(clientGot), len(hostSent), i, short(clientGot[i:]), short(tailFrom(hostSent, i)))
 		return sv
 	}
+	hostEnded := ""
+	for _, hc := range t.HostConns() {
+		if hc.Ended != "" {
+			hostEnded = hc.Ended
+		}
+	}
+	if hostEnded == "rst" {
+		// a reset discards what is in flight in both directions: prefixes only
+		wantComplete = false
+	}
 	if wantComplete {
-		if len(hostGot) != len(v.ExpectHost) {
+		// (a host that closed after its script no longer reads what the client still sends)
+		if len(hostGot) != len(v.ExpectHost) && hostEnded == "" {
 			failf(c, oracle, sig("host-stream-incomplete"), "%s/%s: after the drain the host has %d of %d bytes of the client's declared payloads (sent=%s)", p.Name, p.Transport, len(hostGot), len(v.ExpectHost), planString(p, len(cl.Sent)))
 			return sv
 		}
@@ -302,6 +313,9 @@ func runC06(c *Ctx) {
 		}
 	}
 	hostStream := c.T.Bool(1, 2)
+	// the host may end the connection itself: close after its last write (everything it wrote
+	// must still reach the client) or reset in the middle of its script
+	hostEnd := c.T.Weighted(5, 1, 1)
 	if nt > 1 {
 		d += " || alongside " + buildStreamPlan(c, tw, tw.Plans[1], 1+c.T.Choose(8), 1+c.T.Choose(8), 9000, 9000, false)
 		c.S.Count("probe.second_tunnel_alongside")
@@ -310,6 +324,14 @@ func runC06(c *Ctx) {
 	tw.Tuns = StartTunnels(c, tw.Plans)
 	for _, h := range tw.Tuns[0].Hosts {
 		h.L.StreamBack = hostStream
+		switch hostEnd {
+		case 1:
+			h.CloseAfterScript = true
+			d += " host-closes-after-script"
+		case 2:
+			h.ResetAfter = c.T.Choose(len(h.Script) + 1)
+			d += fmt.Sprintf(" host-resets-after-%d-writes", h.ResetAfter)
+		}
 	}
 	RunTunnels(c, tw.Tuns, 40000)
 	t := tw.Tuns[0]
